@@ -398,6 +398,133 @@ fn fault_worker(stub: &Arc<Stub>, tag: &str) {
     println!("S\t{}\t{}\t{}\ttrue", evals, evals, evals);
 }
 
+
+// ---------------------------------------------------------------------------------------------
+// the life of a node as three processes sharing one bucket (state that lives in a process, such
+// as a lazily built global, is invisible to restarts inside one process)
+
+/// child: `C18X <strategy> <partitions> <stub port> <phase>`; prints K\t<key>\t<version>\t<value> lines and DONE
+pub fn xproc_child(args: &[String]) {
+    let (strategy, partitions, port, phase) = (&args[0], &args[1], args[2].parse::<u16>().unwrap(), args[3].parse::<u64>().unwrap());
+    set_env(strategy, partitions, port);
+    let ctx = NodeCtx::new(fresh_dir("c18x"), phase * 1_000_000);
+    let node = Node::start(ctx.clone(), "n1:1", 1);
+    node.set_role(ClusterRole::Primary);
+    let mut admin = Session::new();
+    admin.exec(&node, &format!("auth {} {}", USER, PWD));
+    let snapshot = |admin: &mut Session, node: &Node| {
+        admin.exec(node, "snapshot false t");
+        node.run_snapshot_queue();
+    };
+    match phase {
+        1 => {
+            admin.exec(&node, "create-db t tok none");
+            admin.exec(&node, "use-db t tok");
+            for i in 0..24 {
+                admin.exec(&node, &format!("set k{:02} v{}", i, i));
+            }
+            admin.exec(&node, "set a 1");
+            snapshot(&mut admin, &node);
+        }
+        2 => {
+            admin.exec(&node, "use-db t tok");
+            admin.exec(&node, "set k03 w2");
+            admin.exec(&node, "set fresh n1");
+            admin.exec(&node, "increment a");
+            snapshot(&mut admin, &node);
+        }
+        _ => {}
+    }
+    match snap_state_of(&node.dbs, "t") {
+        Some(s) => {
+            for (k, (v, ver)) in s.live.iter() {
+                println!("K\t{}\t{}\t{}", k, ver, v);
+            }
+        }
+        None => println!("NODB"),
+    }
+    println!("DONE");
+    node.remove_dir();
+}
+
+fn xproc_pass(run: &mut Run, quick: bool) {
+    let exe = std::env::current_exe().unwrap();
+    let mut runs = 0;
+    for (strategy, parts) in if quick { vec![("s3_patition", "10")] } else { vec![("s3_patition", "10"), ("s3_patition", "3"), ("s3", "10")] } {
+        let stub = Stub::start("nun-db");
+        let tag = format!("{} ({} partitions)", strategy, parts);
+        let mut states: Vec<Option<BTreeMap<String, (String, i32)>>> = vec![];
+        for phase in 1..=3 {
+            let o = std::process::Command::new(&exe).args(["C18X", strategy, parts, &stub.port.to_string(), &phase.to_string()]).output().expect("spawn C18X");
+            let text = String::from_utf8_lossy(&o.stdout).to_string();
+            if !text.contains("DONE") {
+                // the child died: a start-up (or snapshot) failure of the code under test
+                run.violate(Violation {
+                    clause: "restart-panic".into(),
+                    shape: format!("{}: a process of the node's life died (phase {})", tag, phase),
+                    detail: format!("stdout {:?} stderr {:?}", text.chars().take(400).collect::<String>(), String::from_utf8_lossy(&o.stderr).chars().take(1200).collect::<String>()),
+                    replay: json!({"engine":"c18","pass":"three processes","strategy":strategy,"partitions":parts}),
+                });
+                states.clear();
+                break;
+            }
+            if text.contains("NODB") {
+                states.push(None);
+                continue;
+            }
+            let mut m = BTreeMap::new();
+            for l in text.lines() {
+                let p: Vec<&str> = l.splitn(4, '\t').collect();
+                if p.len() == 4 && p[0] == "K" {
+                    m.insert(p[1].to_string(), (p[3].to_string(), p[2].parse::<i32>().unwrap_or(-99)));
+                }
+            }
+            states.push(Some(m));
+        }
+        runs += 1;
+        if states.len() != 3 {
+            continue;
+        }
+        let (first, want, got) = (states[0].clone().unwrap_or_default(), states[1].clone().unwrap_or_default(), states[2].clone());
+        let mut out: Vec<(String, String)> = vec![];
+        match got {
+            None => out.push(("database missing after restart".to_string(), "database t".to_string())),
+            Some(got) => {
+                for (k, v) in want.iter() {
+                    if k == "$connections" {
+                        continue;
+                    }
+                    let untouched = first.get(k) == Some(v);
+                    match got.get(k) {
+                        None => out.push((if untouched { "key untouched since the previous snapshot is lost".to_string() } else { "snapshotted key is lost".to_string() }, format!("t.{}={:?}", k, v))),
+                        Some(g) if g.0 != v.0 => out.push(("value differs".to_string(), format!("t.{}: snapshotted {:?} loaded {:?}", k, v, g))),
+                        Some(g) if g.1 != v.1 => out.push(("version differs".to_string(), format!("t.{}: snapshotted {:?} loaded {:?}", k, v, g))),
+                        _ => {}
+                    }
+                }
+                for (k, g) in got.iter() {
+                    if k != "$connections" && !want.contains_key(k) {
+                        out.push(("key that was not in the snapshot is loaded".to_string(), format!("t.{}={:?}", k, g)));
+                    }
+                }
+            }
+        }
+        let mut seen = std::collections::BTreeSet::new();
+        for (kind, detail) in out {
+            if seen.insert(kind.clone()) {
+                run.violate(Violation {
+                    clause: "restart-mismatch".into(),
+                    shape: format!("{}: {}", tag, kind),
+                    detail: format!("{} || three processes on one bucket: [25 keys, snapshot] exit; [start, set k03, set fresh, increment a, snapshot] exit; [start] compared with the second process's snapshot state", detail),
+                    replay: json!({"engine":"c18","pass":"three processes","strategy":strategy,"partitions":parts}),
+                });
+            }
+        }
+    }
+    run.cov("lives_played_as_three_processes", json!(runs));
+    run.cov_add("evaluations", runs);
+}
+
 pub fn run(run: &mut Run) {
     let quick = run.quick();
     let exe = std::env::current_exe().unwrap();
@@ -460,6 +587,7 @@ pub fn run(run: &mut Run) {
             }
         }
     }
+    xproc_pass(run, quick);
     let st = run.coverage.get("states").and_then(|v| v.as_u64()).unwrap_or(0);
     run.cov("distinct_nontrivial", json!(st));
     run.cov("rule", json!("histories over set/remove/increment/snapshot false|true/restart up to the depth bound, per storage strategy and partition count; distinct = distinct (memory, bucket content, reference) states; fault plans = every upload position of a fixed incremental snapshot x {fails once, fails always} x {403, 500}"));
